@@ -4,7 +4,7 @@
    vnone = the value Python calls None.  A dictionary is the list of its items in insertion order;
    "well-formed" (pairwise different keys) is the hypothesis NoDup (map fst d) where it is needed. *)
 From Coq Require Import List ZArith NArith Bool Permutation.
-From Orso Require Import Model.C02 Proofs.C02 Proofs.C02_Session.
+From Orso Require Import Model.C02 Proofs.C02 Proofs.C02_Session Proofs.C02_Source.
 Import ListNotations.
 
 (* Row(dict) has exactly one cell per field, duplicates included. *)
@@ -317,6 +317,39 @@ Proof.
 Qed.
 Print Assumptions C02_session_later_calls_inert.
 
+(* ---------- the object that delivers the dictionaries ----------
+   DataFrame(obj) - modelled as the constructor's own protocol: one iter(), one next(), the same iterator to
+   its end - reads exactly the dictionaries one pass over obj delivers at that moment, and leaves obj as a
+   full read leaves it: unchanged if obj is a container, spent otherwise. *)
+Theorem C02_frame_from_any_iterable :
+  forall (K V : Type) (eqK : forall a b : K, {a = b} + {a <> b}) (vnone : V) (s : source K V),
+  frame_from_source eqK vnone s = (frame_of_dicts eqK vnone (src_pending s), src_spent K V s) /\
+  src_pending (src_spent K V s) = (if src_rewinds s then src_pending s else []).
+Proof.
+  intros K V eqK vnone s. split.
+  - exact (frame_from_source_spec K V eqK vnone s).
+  - exact (src_spent_pending K V s).
+Qed.
+Print Assumptions C02_frame_from_any_iterable.
+
+(* Whatever the caller did with the object before (read single records, read it to the end, built other
+   frames from it): the frame built now has the columns of, and exactly one row per, the dictionaries the
+   object still has to deliver - all of them if it is a container (k = 0), a suffix otherwise - and a
+   non-container is spent afterwards. *)
+Theorem C02_frame_from_iterable_after_history :
+  forall (K V : Type) (eqK : forall a b : K, {a = b} + {a <> b}) (vnone : V)
+         (s : source K V) (ops : list src_op),
+  exists k,
+    (src_rewinds s = true -> k = 0) /\
+    let ds := skipn k (src_pending s) in
+    snd (src_step eqK vnone (fst (src_run eqK vnone s ops)) SrcFrame) =
+      SrcFrameOut (fst (frame_of_dicts eqK vnone ds)) (snd (frame_of_dicts eqK vnone ds)) /\
+    length (snd (frame_of_dicts eqK vnone ds)) = length ds /\
+    src_pending (fst (src_step eqK vnone (fst (src_run eqK vnone s ops)) SrcFrame)) =
+      (if src_rewinds s then ds else []).
+Proof. exact source_frame_after_history. Qed.
+Print Assumptions C02_frame_from_iterable_after_history.
+
 (* ---------- non-vacuity: the hypotheses are satisfiable by non-trivial values ---------- *)
 Local Open Scope Z_scope.
 Definition ex_a : key := [97%N].
@@ -371,3 +404,14 @@ Example C02_nonvacuous_session :
    SORow [ex_a; ex_b] [8; 9] [(ex_a, 8); (ex_b, 9)];
    SORow [ex_a; ex_b] [1; 2] [(ex_a, 1); (ex_b, 2)]; SOFrame [ex_a; ex_b] [[10; 11]]].
 Proof. reflexivity. Qed.
+
+(* the same three records through a container and through a read-once object: peek, build, build again *)
+Example C02_nonvacuous_source :
+  let ds := [[(ex_a, 1); (ex_b, 2)]; [(ex_b, 3)]; [(ex_c, 4); (ex_a, 5)]] in
+  snd (src_run key_dec 0 (Source ds 0%nat true) [SrcNext; SrcFrame; SrcFrame]) =
+    [SrcItem (Some [(ex_a, 1); (ex_b, 2)]);
+     SrcFrameOut [ex_a; ex_b] [[1; 2]; [0; 3]; [5; 0]]; SrcFrameOut [ex_a; ex_b] [[1; 2]; [0; 3]; [5; 0]]] /\
+  snd (src_run key_dec 0 (Source ds 0%nat false) [SrcNext; SrcFrame; SrcFrame; SrcList]) =
+    [SrcItem (Some [(ex_a, 1); (ex_b, 2)]);
+     SrcFrameOut [ex_b] [[3]; [0]]; SrcFrameOut [] []; SrcItems []].
+Proof. split; reflexivity. Qed.
